@@ -94,6 +94,9 @@ def run_property(prop, tier, seed):
             crashed.append(dict(r, error='zero obligations generated'))
             continue
         for o in r['obligations']:
+            if o['status'] != 'proved' and known_match(known, prop, o['id']) is not None:
+                failed.append((r, o))     # a listed known finding: reported as such, not counted as an obligation to discharge
+                continue
             n_ob += 1
             solver_s += o['time']
             if o['status'] == 'proved':
